@@ -35,6 +35,7 @@ import (
 	"fmt"
 	"io/ioutil"
 	"path/filepath"
+	"strings"
 
 	"github.com/pborman/uuid"
 	"gitlab.com/aquachain/aquachain/common"
@@ -179,6 +180,7 @@ func DecryptKey(keyjson []byte, auth string) (*Key, error) {
 	// Depending on the version try to parse one way or another
 	var (
 		keyBytes, keyId []byte
+		fileAddress     string
 		err             error
 	)
 	if version, ok := m["version"].(string); ok && version == "1" {
@@ -186,12 +188,14 @@ func DecryptKey(keyjson []byte, auth string) (*Key, error) {
 		if err := json.Unmarshal(keyjson, k); err != nil {
 			return nil, err
 		}
+		fileAddress = k.Address
 		keyBytes, keyId, err = decryptKeyV1(k, auth)
 	} else {
 		k := new(encryptedKeyJSONV3)
 		if err := json.Unmarshal(keyjson, k); err != nil {
 			return nil, err
 		}
+		fileAddress = k.Address
 		keyBytes, keyId, err = decryptKeyV3(k, auth)
 	}
 	// Handle any decryption errors and return the key
@@ -199,10 +203,20 @@ func DecryptKey(keyjson []byte, auth string) (*Key, error) {
 		return nil, err
 	}
 	key := crypto.ToECDSAUnsafe(keyBytes)
+	address := crypto.PubkeyToAddress(key.PubKey())
+	// The IV is not covered by the MAC: a corrupted IV decrypts to a different key
+	// without any error. When the file names its address, the key must match it.
+	if fileAddress != "" {
+		want, err := hex.DecodeString(strings.TrimPrefix(strings.TrimPrefix(fileAddress, "0x"), "0X"))
+		if err != nil || !bytes.Equal(want, address[:]) {
+			zeroKey(key)
+			return nil, fmt.Errorf("key file corrupted: decrypted key has address %x, file says %s", address, fileAddress)
+		}
+	}
 
 	return &Key{
 		Id:         uuid.UUID(keyId),
-		Address:    crypto.PubkeyToAddress(key.PubKey()),
+		Address:    address,
 		PrivateKey: key,
 	}, nil
 }
